@@ -94,6 +94,13 @@ func zzCall(ch *channel, entry int, ctx context.Context, p []byte) (int64, error
 	case 3:
 		h := (len(p) + 1) / 2
 		return ch.CtxWritev(ctx, [][]byte{p[:h], p[h:]})
+	case 5:
+		return ch.Writev([][]byte{p}) // single-element vector
+	case 6:
+		return ch.CtxWritev(ctx, [][]byte{p})
+	case 7:
+		h := len(p) / 2
+		return ch.Writev([][]byte{p[:h], {}, p[h:]}) // with an empty element
 	default:
 		n, err := ch.Writer().Write(p)
 		return int64(n), err
@@ -112,7 +119,7 @@ func zzPayload(id, size int) []byte {
 }
 
 // ZZ_C01_Writers: nw writer threads issue ww writes each on one channel (queue q; q==0 synchronous;
-// until: blocking queue mode). entries packs one entry point (0..4) per writer, base 5.
+// until: blocking queue mode). entries packs one entry point (0..7) per writer, base 8.
 // Decides C01 (every transport write and at quiescence), C02 (quiescence) and C10 (callers scribble on
 // their buffers right after each call; pooled buffers are havocked on Put).
 func ZZ_C01_Writers(q, until, nw, ww, wwOther, entries, sizes, scribble int) {
@@ -130,9 +137,9 @@ func ZZ_C01_Writers(q, until, nw, ww, wwOther, entries, sizes, scribble int) {
 		w := w
 		entry := entries
 		for i := 0; i < w; i++ {
-			entry /= 5
+			entry /= 8
 		}
-		entry %= 5
+		entry %= 8
 		vrt.Go("w"+string(rune('0'+w)), func() {
 			mine := ww
 			base := 0
@@ -200,7 +207,7 @@ func ZZ_C01_Sizes(q, until, entry, sizeIdx, scribble int) {
 			a[n/2] = 0xEE
 		}
 	}
-	nb, eb := zzCall(ch, (entry+1)%5, context.Background(), b)
+	nb, eb := zzCall(ch, (entry+1)%8, context.Background(), b)
 	if scribble != 0 {
 		b[0], b[1] = 0xEE, 0xEE
 	}
@@ -221,4 +228,52 @@ func ZZ_C01_Sizes(q, until, entry, sizeIdx, scribble int) {
 	vrt.Assert(tr.log[n] == sb[0] && tr.log[n+1] == sb[1], lbl+"-payload-unmodified")
 	vrt.Assert(tr.unflushed == 0, "c02-flushed-after-last-byte")
 	vrt.Reach("c01-sizes-done")
+}
+
+// zzManualExecutor keeps the actions it is given; the harness runs them when it chooses (a sender that
+// starts late, on the caller's goroutine: fully sequential).
+type zzManualExecutor struct{ pending []Action }
+
+func (e *zzManualExecutor) Exec(a Action) { e.pending = append(e.pending, a) }
+func (e *zzManualExecutor) runAll() {
+	for len(e.pending) > 0 {
+		a := e.pending[0]
+		e.pending = e.pending[1:]
+		a()
+	}
+}
+
+// ZZ_C10_Recycle: pool recycling across batches with the precise sync.Pool model, sequentially: `first` payloads
+// are accepted and sent in one batch (their buffers are recycled together), then `second` payloads are accepted
+// (their buffers may be any of the recycled ones), the callers scribble, the sender runs, and every payload must
+// arrive intact and in order.
+func ZZ_C10_Recycle(q, first, second, entry int) {
+	tr := newZZTransport()
+	pl := NewPipeline()
+	ex := &zzManualExecutor{}
+	ch := newChannelWith(context.Background(), pl, tr, ex, 1, q, true).(*channel)
+	pl.(*pipeline).channel = ch
+	var want []byte
+	id := 0
+	for round, count := range []int{first, second} {
+		for k := 0; k < count; k++ {
+			p := zzPayload(id, 2+id%2)
+			id++
+			want = append(want, p...)
+			n, err := zzCall(ch, (entry+k+round)%8, context.Background(), p)
+			vrt.Assert(err == nil && n == int64(len(p)), "c10-accepted")
+			for i := range p {
+				p[i] = 0xEE
+			}
+		}
+		ex.runAll()
+	}
+	vrt.Assert(len(tr.log) == len(want), "c10-payload-whole")
+	for i := range want {
+		if i < len(tr.log) {
+			vrt.Assert(tr.log[i] == want[i], "c10-payload-unmodified")
+		}
+	}
+	vrt.Assert(tr.unflushed == 0 && len(ch.writeQueue) == 0, "c10-everything-sent")
+	vrt.Reach("c10-recycle-done")
 }
